@@ -285,7 +285,7 @@ def make_recorders(path_prefix: str):
     """extensions that record, inside the worker, the seeds and the candidates of every task"""
     from src.extensions.extension import Extension
     from src.extensions.messages import InitialAlignmentMessage, MultipleAlignmentResultRowsMessage, \
-        CorrelationResultMessage
+        CorrelationResultMessage, AlignmentResultRowMessage
 
     class SeedRecorder(Extension):
         messageType = InitialAlignmentMessage
@@ -314,6 +314,20 @@ def make_recorders(path_prefix: str):
                                 "start": int(ra.correlationStart), "index": int(message.index),
                                 "peaks": [[int(p.position), float(p.height)] for p in ra.peaks]})
 
+    class RowRecorder(Extension):
+        messageType = AlignmentResultRowMessage
+
+        def __init__(self, prefix):
+            self.prefix = prefix
+
+        def handle(self, message):
+            row = message.alignment
+            _emit(self.prefix, {"ev": "Row", "task": [qid(message.query.moleculeId), int(message.query.shift),
+                                                       len(message.query.positions)],
+                                "ref": int(message.reference.moleculeId), "rev": bool(row.reverseStrand),
+                                "index": int(message.index), "conf": float(row.confidence),
+                                "npairs": len(row.alignedPairs)})
+
     class CandidateRecorder(Extension):
         messageType = MultipleAlignmentResultRowsMessage
 
@@ -338,7 +352,7 @@ def make_recorders(path_prefix: str):
                               "segs": segs})
             _emit(self.prefix, {"ev": "Cands", "task": task, "cands": cands})
 
-    return [SeedRecorder(path_prefix), RefineRecorder(path_prefix), CandidateRecorder(path_prefix)]
+    return [SeedRecorder(path_prefix), RefineRecorder(path_prefix), RowRecorder(path_prefix), CandidateRecorder(path_prefix)]
 
 
 def _pos(p) -> Dict:
